@@ -552,7 +552,7 @@ class Scalar(Parametrized):
 
     def dagger(self):
         return self if self._dagger is None\
-            else Scalar(self.array[0].conjugate())
+            else Scalar(self.array[0].conjugate(), is_mixed=self.is_mixed)
 
 
 class MixedScalar(Scalar):
